@@ -2,7 +2,7 @@
    Only statements, each closed by [exact].  The guard chain [from_json_chain] is Gen/JsonResolve.v, regenerated from
    adapters/json_serializer.py on every run; the Spec (decision table) is Json/ResolveSpec.v.
    Quantifiers: every JSON value as document and under the tag key; every behaviour the import machinery documents
-   (importer: module | ModuleNotFoundError | ValueError only for "" | TypeError only for relative names;
+   (importer: module | ModuleNotFoundError | ImportError | ValueError only for "" | TypeError only for relative names;
     getattr (on a module or a class): object | AttributeError;  issubclass: bool | TypeError only for non-classes).
    Tag format (since 70c605d): "<module>.<qualified class name>"; the Spec's owner part = longest importable module prefix,
    then classes.  SubclassJSONSerializer._resolve_enclosing_class is hand-modelled ([enclosing], Json/Resolve.v) and source-pinned. *)
@@ -87,6 +87,25 @@ Theorem C19_model_is_spec :
     K_abstract_registered Z Z Z (rc_import c) (rc_getattr c) (memz (rc_types c)) (rc_issub c) (assoc_z (rc_regs c)) (memz (rc_impl c)) (rc_data c) = false ->
     model_rcase c = spec_rcase c.
 Proof. exact model_rcase_eq_spec. Qed.
+
+(* regression example for the former finding C19-e (fixed by 2cf212b): falsy tags of the wrong JSON type (0, false, [], "") are
+   format errors like the truthy ones; only an absent or null tag is missing *)
+Example C19_regression_falsy_wrong_type :
+  let run := fun t => resolve Z Z Z w_import w_getattr (fun _ => true) (fun _ => Ok true) (fun _ => None) (fun _ => true)
+                        (JObj [(JSON_TYPE_NAME, t)]) in
+  run (JInt 0) = RaiseJ InvalidTypeFormatError /\ run (JBool false) = RaiseJ InvalidTypeFormatError /\
+  run (JArr []) = RaiseJ InvalidTypeFormatError /\ run (JStr []) = RaiseJ InvalidTypeFormatError /\
+  run (JInt 5) = RaiseJ InvalidTypeFormatError /\ run JNull = RaiseJ MissingTypeError /\
+  resolve Z Z Z w_import w_getattr (fun _ => true) (fun _ => Ok true) (fun _ => None) (fun _ => true) (JObj []) = RaiseJ MissingTypeError.
+Proof. exact falsy_wrong_type_is_format_error. Qed.
+
+(* regression example for the former finding C19-c (fixed by 34c3d21): an importer that answers ImportError for an existing
+   module is inside the documented behaviours, and the outcome is UnknownModuleError *)
+Example C19_regression_import_error :
+  importer_documented Z w_import_err /\
+  resolve Z Z Z w_import_err w_getattr (fun _ => true) (fun _ => Ok true) (fun _ => None) (fun _ => true) w_data
+  = RaiseJ UnknownModuleError.
+Proof. exact import_error_is_unknown_module. Qed.
 
 (* regression example for the former finding C19-b (fixed by dd15a30): the tag "k.S", S a serialiser class without
    _from_json, in a documented world, now gives ClassNotDeserializableError (it was NotImplementedError) *)
